@@ -709,6 +709,10 @@ class Interp(object):
         spec = self.loop_specs.get(key)
         if spec is not None:
             return spec.run(self, s, frame)
+        return self.for_plain(s, frame)
+
+    def for_plain(self, s, frame):
+        """Ordinary execution of a for statement (also used by role-based contracts that decline a loop)."""
         it = self.eval(s.iter, frame)
         items = self.iterate(it, lazy=True)
         for x in items:
